@@ -36,6 +36,8 @@ structure GoodConf (c : ConfR) : Prop where
   groups_keys : (c.groups.map (·.1)).Nodup
   groups_safe : ∀ g ∈ c.groups, SafeSrc g.1
   acts : ∀ sv ∈ c.servers, ∀ r ∈ sv.rules, ∀ a ∈ actsOf r.act, GoodAct c a
+  /-- every server listens on a TCP port -/
+  ports_ok : (∀ d ∈ c.dports, 1 ≤ d.1 ∧ d.1 ≤ 65535) ∧ ∀ sv ∈ c.servers, 1 ≤ sv.port ∧ sv.port ≤ 65535
 
 /-! ### external locations: the bridge to `Mangle.serverExternalLocs` -/
 
@@ -264,17 +266,31 @@ theorem goodServers_genR {s : Scenario} (order : List Nat) (hf : inFragment s = 
     have := path_ne_nil_of_inFragment hf hx'
     intro e; rw [e] at this; simp at this
 
-theorem goodConf_genR {s : Scenario} (order : List Nat) (hf : inFragment s = true) (hs : namesSafe s = true) :
-    GoodConf (genR s order) := by
+theorem goodConf_genR {s : Scenario} (order : List Nat) (hf : inFragment s = true) (hs : namesSafe s = true)
+    (hp : portsOK s = true) : GoodConf (genR s order) := by
   unfold genR
   cases hw : winner s with
   | none =>
-    exact ⟨by simp, by simp, by simp, by simp, by simp, by simp, by simp⟩
+    exact ⟨by simp, by simp, by simp, by simp, by simp, by simp, by simp, by simp⟩
   | some g =>
     simp only
     have hhosts : (hostsOf g s.routes).Nodup := by unfold hostsOf; exact nodup_eraseDups _
     have hes : ∀ x ∈ entriesR g s.routes, SafeEntry x := fun x hx => safe_of_namesSafe hs hx
-    refine ⟨?_, ?_, ?_, ?_, ?_, ?_, ?_⟩
+    have hport : ∀ p ∈ (g.listeners.map (·.port)).eraseDups, 1 ≤ p ∧ p ≤ 65535 := by
+      intro p hpm
+      rw [List.mem_eraseDups] at hpm
+      obtain ⟨l, hl, rfl⟩ := List.mem_map.mp hpm
+      unfold portsOK at hp
+      simp only [hw, List.all_eq_true, Bool.and_eq_true, decide_eq_true_eq] at hp
+      exact hp l hl
+    refine ⟨?_, ?_, ?_, ?_, ?_, ?_, ?_, ⟨?_, ?_⟩⟩
+    rotate_left 7
+    · intro d hd
+      obtain ⟨p, hpm, rfl⟩ := List.mem_map.mp hd
+      exact hport p hpm
+    · intro sv hsv
+      obtain ⟨ph, hph, rfl⟩ := List.mem_map.mp hsv
+      exact hport ph.1 (hostsOf_port hph)
     · simp only [List.map_map, Function.comp_def, List.map_id']
       exact nodup_eraseDups _
     · simp only [List.map_map, Function.comp_def, serverOfR]
